@@ -163,7 +163,9 @@ def run(ctx):
                             if rng.random() < 0.3:      # same blades, other storage order
                                 hist.append({'t': 'T1', 'kind': 'prog', 'op': name, 'args': [tuple(reversed(p)) for p in pats], 'params': [], 'mode': 'num'})
                     rng.shuffle(hist)
-                    add(u, {'wrapper': rng.random() < 0.3}, progs, hist)
+                    # options of the algebra vary from session to session (rarely combined with registered functions)
+                    add(u, rng.choice([{'wrapper': True}, {'wrapper': False}, {'wrapper': False}, {'cse': False}, {'symbolcls': 'sympy'},
+                                       {'cse': False, 'wrapper': True}]), progs, hist)
         # deeper trees, 1..3 arguments
         for k in range(6 if q else 60):
             progs, hist = {}, []
